@@ -79,8 +79,11 @@ def run(rep):
                     # twin field-by-field
                     f1 = [(f["n"], f["t"]) for f in rec["variants"][0]["fields"]]
                     f2 = [(f["n"], f["t"]) for f in prog.adts[proxy[1]]["variants"][0]["fields"]]
-                    if twin_equal(prog, f1, f2, adt, proxy[1]):
-                        rep.ok("twin-agreement", nm, sample="%s == %s field by field; writer == twin reader" % (nm, proxy[1].split("::")[-1]))
+                    pos_ok, pos_why, pb = proxy_conversion_positional(prog, adt, proxy)
+                    if not pos_ok:
+                        rep.fail("twin-agreement", nm + "/conversion", "%s's decode conversion does not carry the twin's fields over in place: %s" % (nm, pos_why), site=(pb or m["de_body"]).loc())
+                    elif twin_equal(prog, f1, f2, adt, proxy[1]):
+                        rep.ok("twin-agreement", nm, sample="%s == %s field by field; writer == twin reader; %s" % (nm, proxy[1].split("::")[-1], pos_why))
                     else:
                         rep.fail("twin-agreement", nm, "%s and its decode twin %s differ: %s vs %s" % (nm, proxy[1].split("::")[-1],
                                  [(a, ty_str(t)) for a, t in f1], [(a, ty_str(t)) for a, t in f2]), site=m["de_body"].loc())
@@ -174,6 +177,66 @@ def twin_equal(prog, f1, f2, a1, a2):
             else:
                 return False
     return True
+
+
+def arg_fields_used(t, acc=None, _seen=None):
+    """Top-level fields of argument 1 a term reads (`None` in the set = the whole argument)."""
+    if acc is None:
+        acc, _seen = set(), set()
+    if not isinstance(t, tuple) or id(t) in _seen:
+        return acc
+    _seen.add(id(t))
+    if t == ("arg", 1):
+        acc.add(None)
+        return acc
+    if len(t) >= 3 and t[0] == "field" and t[1] == ("arg", 1):
+        acc.add(t[2])
+        return acc
+    for x in t:
+        if isinstance(x, tuple):
+            arg_fields_used(x, acc, _seen)
+    return acc
+
+
+def proxy_conversion_positional(prog, adt, proxy):
+    """For `#[serde(try_from = proxy)]`: the value accepted by the conversion stores, in field i, data read from
+    proxy field i only (no field swapped / dropped / duplicated on the way in).  Returns (ok, reason, body)."""
+    b = try_from_impl(prog, adt, lambda t: t == proxy or (t[0] == "adt" and proxy[0] == "adt" and t[1] == proxy[1]))
+    if b is None:
+        return False, "no TryFrom<%s> conversion found" % ty_str(proxy), None
+    S = Session(prog)
+    try:
+        r = S.eval(b)
+    except Exception as e:       # fail closed
+        return False, "conversion body not evaluable: %r" % (e,), b
+    if r is None:
+        return False, "conversion has no normal return", b
+    okp = S.eng.proj_field(("down", r, 0), 0)
+    if okp[0] != "struct" or okp[1] != adt:
+        okp = S.canon(okp)
+    if okp[0] != "struct" or okp[1] != adt:
+        return False, "accepted value is not a field-wise construction of the type: %s" % S.show(okp)[:200], b
+    n = len(okp[3])
+    if proxy[0] != "adt":
+        used = arg_fields_used(okp[3][0]) if n == 1 else {1}
+        return (used == {None}), "newtype payload reads %s" % sorted(map(str, used)), b
+    is_ok = S.alg.nb(S.eng.eq_int(S.eng.discr(r), 0))
+    fts = [f["t"] for f in prog.adts[adt]["variants"][0]["fields"]]
+    for i, f in enumerate(okp[3]):
+        used = arg_fields_used(f)
+        if used != {i}:
+            # recomputed from other fields, but accepted only when equal to the stored one (e.g. lock == H(secret))?
+            try:
+                leaves = list(type_leaves(prog, fts[i], fld(arg(1), i)))
+                forced = bool(leaves) and all(S.alg.bdd.implies(is_ok, S.alg.eq(project_path(S, f, path), term))
+                                              for term, _lt, path in leaves)
+            except Exception:
+                forced = False
+            if forced:
+                continue
+            return False, "field %d of the accepted %s is built from proxy field(s) %s instead of field %d" % (
+                i, adt.split("::")[-1], sorted(map(str, used)), i), b
+    return True, "%d fields carried over position by position" % n, b
 
 
 def validators(rep, pkr, skr):
